@@ -20,6 +20,9 @@
 #include <omp.h>
 #endif
 
+#ifdef KALIGN_VERIF
+#include "kalign_verif.h"
+#endif
 #define ALN_WRAP_IMPORT
 #include "aln_wrap.h"
 
@@ -52,6 +55,9 @@ int kalign_run(struct msa *msa, int n_threads, int type, float gpo, float gpe, f
         struct aln_tasks* tasks = NULL;
         struct aln_param* ap = NULL;
         /* This also adds the ranks of the sequences !  */
+#ifdef KALIGN_VERIF
+        kv_run(0, msa);
+#endif
         RUN(kalign_essential_input_check(msa, 0));
 
         /* If already aligned unalign ! */
@@ -105,6 +111,9 @@ int kalign_run(struct msa *msa, int n_threads, int type, float gpo, float gpe, f
                            gpo,
                            gpe,
                            tgpe));
+#ifdef KALIGN_VERIF
+        kv_param(ap, msa->biotype, type, gpo, gpe, tgpe);
+#endif
 
 
         DECLARE_TIMER(t1);
@@ -136,6 +145,9 @@ int kalign_run(struct msa *msa, int n_threads, int type, float gpo, float gpe, f
 
         aln_param_free(ap);
         free_tasks(tasks);
+#ifdef KALIGN_VERIF
+        kv_run(1, msa);
+#endif
         return OK;
 ERROR:
         aln_param_free(ap);
